@@ -142,7 +142,7 @@ pub fn run(cfg: &Cfg) -> (Log, Meta) {
       Err(msg) => log.violate(format!("C04/leap-table/{:04}", y), "LunarYear", format!("{}", y), format!("panic: {}", msg), "no panic".into()),
     }
   }
-  let nh = cfg.tier.pick(30_000usize, 600_000usize);
+  let nh = cfg.tier.pick(30_000usize, 2_000_000usize);
   log.merge(par_range(nh, 100, |i, l| crate::monitor::month_history::month_history("C04", i, cfg.seed ^ 0x04, 27, 9998, l)));
   log.floor("history.answers_judged", cfg.tier.pick(200_000, 4_000_000));
   log.floor("windows.checked", 9_000);
